@@ -10,6 +10,7 @@ CONTRACTS = [
         ensures={
             "length": "len(result) == 4",
             "shift-append": "forall(lambda j: result[j] == (current % ipow(4, observed_length - 1)) * 4 + j, 0, 4)",
+            "successors": "forall(lambda j: result[j] == succ(current, j, observed_length), 0, 4)",
             "range": "forall(lambda j: 0 <= result[j] < ipow(4, observed_length), 0, 4)",
         },
         raises={},
